@@ -47,7 +47,7 @@ ASSUMPTIONS = [
     "for a 0-d array argument either a scalar or a 0-d array result is accepted; Python and NumPy scalars count as plain scalars",
 ]
 PROBES = ["copy_roundtrip", "caller_mutates_own_array", "caller_scribbles_result", "interrupt_fired", "reentrant_callback", "callback_raise", "swap_alias", "readonly_input", "zero_size_axis", "three_d_argument",
-          "scalar_argument", "noise_op", "elementwise_checked", "alias_checked", "cm_multiclass", "cm_stacked", "group_object",
+          "scalar_argument", "noise_op", "pointwise_big", "pointwise_cells_checked", "elementwise_checked", "alias_checked", "cm_multiclass", "cm_stacked", "group_object",
           "empty_class", "int_scores", "twin_checked", "exception_agreed"]
 
 RATES = ["tpr", "fnr", "tnr", "fpr", "topr", "tonr"]
@@ -87,6 +87,8 @@ def gen_array(rnd, kind):
         a["data"] = [float(round(data[0])) if data[0] == data[0] and abs(data[0]) != float("inf") else 0.0]
     if shape and rnd.random() < 0.12:
         a["as"] = rnd.choice(["list", "list", "tuple"])  # the caller passes a (nested) Python list / tuple
+    elif len(shape) >= 2 and rnd.random() < 0.2:
+        a["as"] = rnd.choice(["fortran", "transposed"])  # multi-dimensional, not C-contiguous
     elif len(shape) == 1 and rnd.random() < 0.1:
         a["as"] = rnd.choice(["strided", "negstride", "series"])  # non-contiguous / negative-stride view, pandas Series
     elif shape and kind == "thr" and rnd.random() < 0.1:
@@ -203,13 +205,17 @@ def generate(rnd, tier):
                 lo = round(rnd.uniform(0, 0.6), 2)
                 op.update({"op": "auc", "lower": lo, "upper": round(rnd.uniform(lo, 1.0), 2),
                            "x_axis": rnd.choice(["fpr", "fnr", "tpr", "tnr"]), "y_axis": rnd.choice(["tpr", "fnr", "tnr", "fpr"])})
+                if rnd.random() < 0.4:
+                    # any rate, under any of its names, can be an axis
+                    op["x_axis"] = rnd.choice(RATES + list(RATE_ALIAS))
+                    op["y_axis"] = rnd.choice(RATES + list(RATE_ALIAS))
             elif k < 0.87:
                 op.update({"op": "swap"})
                 pool_kinds.append("scores")
             elif k < 0.91:
                 op.update({"op": "props"})
             elif k < 0.95:
-                op.update({"op": "pointwise_cm", "x": rnd.choice(thr_idx), "sshape": rnd.choice(["flat", "2d", "labels_col", "labels_row"])})
+                op.update({"op": "pointwise_cm", "x": rnd.choice(thr_idx), "sshape": rnd.choice(["flat", "2d", "2d_f", "labels_col", "labels_row"])})
             else:
                 op.update({"op": "roc", "nb_points": rnd.choice([None, 5, 10]), "x_axis": rnd.choice(["fpr", "fnr", "tar"]),
                            "fnr": rnd.random() < 0.3, "x": rnd.choice(rate_idx)})
@@ -270,6 +276,10 @@ def generate(rnd, tier):
             again = copy.deepcopy(op)
             again.pop("faults", None)
             ops.append(again)
+    if rnd.random() < 0.006:
+        # one very large per-sample matrix (millions of (score, threshold) pairs): blocked / chunked code paths
+        ops.insert(rnd.randrange(len(ops) + 1), {"client": 0, "op": "pointwise_big", "n": rnd.randint(2500, 6000), "m": rnd.randint(600, 1400),
+                                                 "seed": rnd.randrange(2**31), "score_class": rnd.choice(["pos", "neg"]), "equal_class": rnd.choice(["pos", "neg"])})
     return {"np_seed": rnd.randrange(2**31), "objects": objects, "arrays": arrays, "ops": ops}
 
 
@@ -341,6 +351,12 @@ def build_arg(a):
         arr.flags.writeable = False
     if a.get("as") in ("strided", "negstride", "series"):
         return M.wrap_container(arr, a["as"], [])
+    if a.get("as") in ("fortran", "transposed") and arr.ndim >= 2:
+        # same values and shape, another memory layout: Fortran order / a transposed view of the transposed data
+        ro = not arr.flags.writeable
+        arr = np.asfortranarray(arr) if a["as"] == "fortran" else np.ascontiguousarray(arr.T).T
+        if ro:
+            arr.flags.writeable = False
     return arr
 
 
@@ -411,6 +427,8 @@ def evaluate(o, op, args, state, L=None):
         scores = np.concatenate([o.pos, o.neg])
         if op.get("sshape") == "2d" and len(scores) % 2 == 0 and len(scores) > 0:
             labels, scores = labels.reshape(2, -1), scores.reshape(2, -1)
+        elif op.get("sshape") == "2d_f" and len(scores) % 2 == 0 and len(scores) > 0:
+            labels, scores = np.asfortranarray(labels.reshape(2, -1)), np.asfortranarray(scores.reshape(2, -1))  # not C-contiguous
         elif op.get("sshape") == "labels_col" and len(scores) > 0:
             labels = labels.reshape(-1, 1)  # e.g. df[["label"]].values next to a flat score column
         elif op.get("sshape") == "labels_row" and len(scores) > 0:
@@ -677,10 +695,43 @@ def execute(scn, ctx):
             trace.append([step, op.get("client"), "scribble_result"])
             sig.append("scribble_result")
             continue
+        if k == "pointwise_big":
+            rg = np.random.RandomState(op["seed"])  # harness-owned generator (the seam only watches library callers)
+            n_, m_ = min(int(op["n"]), 6000), min(int(op["m"]), 1400)
+            pl = rg.randint(0, 2, size=n_)
+            ps = np.round(rg.normal(size=n_), 2)
+            px = np.round(np.sort(rg.normal(size=m_)), 2)
+            tags = {"op": k, "name": "pointwise_cm", "kind": "function"}
+            probe("pointwise_big")
+            n_viol0 = len(viol)
+            try:
+                r = L.pointwise_cm(pl, ps, px, score_class=op["score_class"], equal_class=op["equal_class"])
+                if np.shape(r) != (n_, m_, 2, 2) or np.asarray(r).dtype != bool:
+                    viol.append({"invariant": "C10.shape_law", "tags": tags,
+                                 "detail": f"pointwise_cm returned shape {np.shape(r)} dtype {np.asarray(r).dtype}, expected {(n_, m_, 2, 2)} bool [op {step}]"})
+                else:
+                    lab = pl[:, None] == 1
+                    top = M.decide_positive(ps[:, None], px[None, :], op["score_class"], op["equal_class"])
+                    for (i_, j_), want in (((0, 0), lab & top), ((0, 1), lab & ~top), ((1, 0), ~lab & top), ((1, 1), ~lab & ~top)):
+                        if not np.array_equal(r[:, :, i_, j_], want):
+                            w = np.argwhere(r[:, :, i_, j_] != want)[0]
+                            viol.append({"invariant": "C10.elementwise", "tags": tags,
+                                         "detail": f"pointwise_cm on {n_} scores x {m_} thresholds: cell ({i_}, {j_}) of sample #{int(w[0])} (label {int(pl[w[0]])}, "
+                                                   f"score {float(ps[w[0]])!r}) at threshold #{int(w[1])} = {float(px[w[1]])!r} is {bool(r[w[0], w[1], i_, j_])} [op {step}]"})
+                            break
+                # (a result already known to be wrong may hold uninitialised memory: keep it out of the trace digest)
+                dg = hashlib.sha1(np.ascontiguousarray(r).tobytes()).hexdigest()[:12] if n_viol0 == len(viol) else None
+                del r
+            except Exception as e:  # noqa: BLE001
+                viol.append({"invariant": "C10.documented_error", "tags": tags, "detail": f"pointwise_cm on {n_} x {m_} inputs raised {type(e).__name__}: {e} [op {step}]"})
+                dg = None
+            trace.append([step, op.get("client"), "pointwise_big", n_, m_, dg])
+            sig.append("pointwise_big")
+            continue
         oi = op["obj"] % len(pool)
         o = pool[oi]
         kind = "cm" if isinstance(o, L.ConfusionMatrix) else "group" if isinstance(o, L.GroupScores) else "scores"
-        tags = {"op": k, "name": op.get("name", op.get("metric", op.get("what", ""))), "kind": kind}
+        tags = {"op": k, "name": op.get("name", op.get("metric", op.get("what", "") or (f"auc({op.get('x_axis')}, {op.get('y_axis')})" if k == "auc" else ""))), "kind": kind}
         fl = op.get("faults")
         # an op generated for another kind of object (pool indices shift while shrinking) is skipped
         applicable = {
@@ -834,9 +885,25 @@ def execute(scn, ctx):
             # shape / scalar laws
             err = shape_law(o, op, x, r, L)
             if k == "pointwise_cm" and "pw_inputs" in st_real:
-                eshape = np.shape(st_real["pw_inputs"][1]) + np.shape(x) + (2, 2)
+                pl, ps = st_real["pw_inputs"][0], st_real["pw_inputs"][1]
+                eshape = np.shape(ps) + np.shape(x) + (2, 2)
                 if np.shape(r) != eshape or np.asarray(r).dtype != bool:
                     err = f"pointwise_cm returned shape {np.shape(r)} dtype {np.asarray(r).dtype}, expected {eshape} bool"
+                elif np.shape(pl) == np.shape(ps) and np.size(r):
+                    # each element: the cell of the (2, 2) matrix in which that sample falls at that threshold (C order of
+                    # the logical indices, whatever the memory layout of the arguments)
+                    lab = np.asarray(pl).reshape(-1)[:, None] == 1
+                    top = M.decide_positive(np.asarray(ps).reshape(-1)[:, None], np.asarray(x, dtype=float).reshape(-1)[None, :],
+                                            o.score_class.value, o.equal_class.value)
+                    want = np.stack([np.stack([lab & top, lab & ~top], axis=-1), np.stack([~lab & top, ~lab & ~top], axis=-1)], axis=-2)
+                    got = np.asarray(r).reshape(want.shape)
+                    if not np.array_equal(got, want):
+                        w = np.argwhere(got != want)[0]
+                        viol.append({"invariant": "C10.elementwise", "tags": tags,
+                                     "detail": f"pointwise_cm: sample #{int(w[0])} (label {int(np.asarray(pl).reshape(-1)[w[0]])}, score {float(np.asarray(ps).reshape(-1)[w[0]])!r}) at "
+                                               f"threshold #{int(w[1])} = {float(np.asarray(x, dtype=float).reshape(-1)[w[1]])!r}: got {got[w[0], w[1]].astype(int).tolist()}, "
+                                               f"the cell it falls in is {want[w[0], w[1]].astype(int).tolist()} [op {step}]"})
+                    probe("pointwise_cells_checked")
             if err:
                 viol.append({"invariant": "C10.shape_law", "detail": f"{err} [op {step}]", "tags": tags})
             # elementwise law
@@ -886,15 +953,18 @@ def execute(scn, ctx):
                 base = dict(op, name=CM_CI_ALIAS[op["name"]])
             elif k == "group_rate" and op["name"] in c12._BASE:
                 base = dict(op, name=c12._BASE[op["name"]])
+            elif k == "auc" and (op["x_axis"] in RATE_ALIAS or op["y_axis"] in RATE_ALIAS):
+                base = dict(op, x_axis=RATE_ALIAS.get(op["x_axis"], op["x_axis"]), y_axis=RATE_ALIAS.get(op["y_axis"], op["y_axis"]),
+                            name=f"auc({RATE_ALIAS.get(op['x_axis'], op['x_axis'])}, {RATE_ALIAS.get(op['y_axis'], op['y_axis'])})")
             if base is not None:
                 probe("alias_checked")
                 try:
                     rb = evaluate(twin_of(oi), base, args, {}, L2)
                     if M.canon(rb) != M.canon(r):
                         viol.append({"invariant": "C10.alias", "tags": tags,
-                                     "detail": f"{op['name']} returned {str(r)[:120]!r} but {base['name']} returns {str(rb)[:120]!r} [op {step}]"})
+                                     "detail": f"{tags['name']} returned {str(r)[:120]!r} but {base['name']} returns {str(rb)[:120]!r} [op {step}]"})
                 except Exception as e:  # noqa: BLE001
-                    viol.append({"invariant": "C10.alias", "detail": f"{base['name']} raised {type(e).__name__} while {op['name']} succeeded [op {step}]", "tags": tags})
+                    viol.append({"invariant": "C10.alias", "detail": f"{base['name']} raised {type(e).__name__} while {tags['name']} succeeded [op {step}]", "tags": tags})
             # vectorised ConfusionMatrix metric vs the metric of one stacked matrix
             if k == "cm_metric" and not op.get("as_dict") and o.matrix.ndim > 2 and o.matrix.size and o.binary:
                 Xm = o.matrix.shape[:-2]
